@@ -83,6 +83,22 @@ pub enum DKind {
 
 /// descriptor ids from here on denote re-entrant descriptors (they call parse_expression + describe themselves)
 pub const REENTRANT_DESC: usize = 1000;
+/// descriptor ids in SELF_DESC..EMPTY_DESC re-enter the engine like the re-entrant ones, but describe a
+/// program that contains nodes of (almost) every kind and name - possibly their OWN key - and limit their
+/// own recursion: inside such a descriptor (depth >= 1) they render `<id|parts|~>` without re-entering
+pub const SELF_DESC: usize = 50_000;
+/// the program a self-describing descriptor describes
+pub fn self_desc_program() -> crate::expr::Expr {
+    use crate::expr::*;
+    Expr::List(vec![
+        un("-", rf("a")),
+        bin("+", rf("a"), lit_i(1)),
+        post(rf("a"), "++"),
+        call("f", vec![rf("a")]),
+        tern(rf("zz"), lit_i(1), lit_i(2)),
+        Expr::Map(vec![(lit_i(1), rf("a"))]),
+    ])
+}
 /// descriptor ids from here on render their node as the EMPTY string (a legal rendering)
 pub const EMPTY_DESC: usize = 100_000;
 
